@@ -118,6 +118,10 @@ func receive(data []byte, out net.Conn) {
 
 	var cblen uint16
 	binary.Read(buf, binary.LittleEndian, &cblen)
+	// never forward more than the packet actually carries
+	if int(cblen) > buf.Len() {
+		cblen = uint16(buf.Len())
+	}
 	pkt := make([]byte, cblen)
 	binary.Read(buf, binary.LittleEndian, &pkt)
 
